@@ -53,12 +53,7 @@ def specKeys (tbl : List Obj) (skip : List Bytes) : List Bytes :=
 def classify (tbl : List Obj) (skip : List Bytes) (P D M : Bytes) : String :=
   let all := tbl.map (·.key)
   let K := specKeys tbl skip
-  -- a bookkeeping name used below the top level, or by a top-level file
-  if all.any (fun k => (match splitOn 47 k with | [] => false | e :: rest => (skip.contains e && rest.isEmpty) || rest.any skip.contains)) then
-    "walk:skip-name-below-top-level"
-  else if (match rootOf P with | some root => (splitOn 47 root).dropLast.any skip.contains | none => false) then
-    "walk:prefix-below-skipdir"
-  else if D ≠ [] && D ≠ [47] then "walk:non-slash-delimiter"
+  if D ≠ [] && D ≠ [47] then "walk:non-slash-delimiter"
   else if D = [] && hasDirObj K then "walk:dir-object-empty-delimiter"
   else if hasDirObjWithChildren K then "walk:dir-object-with-children"
   else if !ocList (treeOf all) then "walk:order-incompatible-siblings"
